@@ -244,6 +244,7 @@ type agg struct {
 	infra       []string
 	wallUs      int64
 	sampleEvery int
+	byIdx       map[int]string
 }
 
 type foundViolation struct {
@@ -255,7 +256,7 @@ type foundViolation struct {
 
 func newAgg() *agg {
 	return &agg{faults: map[string]int{}, probes: map[string]int{}, modes: map[string]int{}, digests: map[string]bool{},
-		shapes: map[string]bool{}, scheds: map[string]bool{}, ntDistinct: map[string]bool{}, known: map[string]int{}, knownWhat: map[string]string{}}
+		shapes: map[string]bool{}, scheds: map[string]bool{}, ntDistinct: map[string]bool{}, known: map[string]int{}, knownWhat: map[string]string{}, byIdx: map[int]string{}}
 }
 
 func (a *agg) add(prop string, findings []Finding, o runOutcome, fixed bool) {
@@ -301,6 +302,9 @@ func (a *agg) add(prop string, findings []Finding, o runOutcome, fixed bool) {
 	}
 	a.modes[r.Mode]++
 	a.digests[r.Digest] = true
+	if !fixed {
+		a.byIdx[o.idx] = r.Digest
+	}
 	a.shapes[r.ShapeDigest+"/"+r.SchedDigest] = true
 	a.scheds[r.SchedDigest] = true
 	if r.NonTrivial {
@@ -448,17 +452,21 @@ func checkMain(args []string) int {
 					skipMu.Unlock()
 					continue
 				}
-				from := c.from
-				for from < c.to {
-					args := []string{"-prop", pr.ID, "-tier", *tier, "-seed", fmt.Sprint(*seed), "-from", fmt.Sprint(from), "-to", fmt.Sprint(c.to)}
+				// One process per run: every run starts from the same cold process state (type caches,
+				// sync.Pools, finalizer queue, leaked goroutines of earlier bubbles), so a run inside a
+				// batch is byte-for-byte the run a replay file reproduces. Costs ~4 ms per run.
+				for idx := c.from; idx < c.to; idx++ {
+					if time.Now().After(deadline) && !c.fixed {
+						skipMu.Lock()
+						skipped += c.to - idx
+						skipMu.Unlock()
+						break
+					}
+					args := []string{"-prop", pr.ID, "-tier", *tier, "-seed", fmt.Sprint(*seed), "-from", fmt.Sprint(idx), "-to", fmt.Sprint(idx + 1)}
 					if c.fixed {
 						args = append(args, "-fixed")
 					}
-					died, done := runWorker(args, false, 240*time.Second, func(o runOutcome) { a.add(pr.ID, findings, o, c.fixed) })
-					if done {
-						break
-					}
-					from = died + 1
+					runWorker(args, false, 240*time.Second, func(o runOutcome) { a.add(pr.ID, findings, o, c.fixed) })
 				}
 			}
 		}()
@@ -483,7 +491,7 @@ func checkMain(args []string) int {
 		if *tier == "thorough" {
 			n = 24
 		}
-		detPlans, detMismatch = determinismSpot(pr, *tier, *seed, min(runs, a.runs-nFixed), n)
+		detPlans, detMismatch = determinismSpot(pr, *tier, *seed, a.byIdx, n)
 	}
 
 	// ---- violations: confirm, minimise, write replay files
@@ -603,15 +611,21 @@ func writeEnumReplay(prop string, seed uint64, v sim.Violation) string {
 	return path
 }
 
-func determinismSpot(pr *props.Property, tier string, seed uint64, runs, n int) (plans, mismatches int) {
-	if runs <= 0 {
+// determinismSpot re-executes a sample of the plans of this check from a plan FILE in a fresh process
+// (the replay path) and compares the history digest with the one the search itself observed.
+func determinismSpot(pr *props.Property, tier string, seed uint64, observed map[int]string, n int) (plans, mismatches int) {
+	if len(observed) == 0 {
 		return 0, 0
 	}
+	idxAll := make([]int, 0, len(observed))
+	for i := range observed {
+		idxAll = append(idxAll, i)
+	}
+	sort.Ints(idxAll)
 	r := sim.NewRand(seed).Fork("detspot")
-	type job struct{ idx int }
 	idxs := map[int]bool{}
-	for len(idxs) < n && len(idxs) < runs {
-		idxs[r.Intn(runs)] = true
+	for len(idxs) < n && len(idxs) < len(idxAll) {
+		idxs[idxAll[r.Intn(len(idxAll))]] = true
 	}
 	var mu sync.Mutex
 	var wg sync.WaitGroup
@@ -623,17 +637,16 @@ func determinismSpot(pr *props.Property, tier string, seed uint64, runs, n int) 
 			defer wg.Done()
 			defer func() { <-sem }()
 			p := props.PlanFor(pr, tier, seed, idx)
-			o1 := runPlanFile(p, false, false)
-			o2 := runPlanFile(p, false, false)
+			o := runPlanFile(p, false, false)
 			mu.Lock()
 			plans++
-			if o1.res == nil || o2.res == nil {
-				if (o1.res == nil) != (o2.res == nil) {
-					mismatches++
-				}
-			} else if o1.res.Digest != o2.res.Digest {
+			if o.res == nil || o.res.Digest != observed[idx] {
 				mismatches++
-				fmt.Fprintf(os.Stderr, "determinism mismatch: plan %s digests %s vs %s\n", p.ID(), o1.res.Digest, o2.res.Digest)
+				d := "CRASH"
+				if o.res != nil {
+					d = o.res.Digest
+				}
+				fmt.Fprintf(os.Stderr, "determinism mismatch: plan %s search=%s replay-path=%s\n", p.ID(), observed[idx], d)
 			}
 			mu.Unlock()
 		}(idx)
@@ -913,13 +926,15 @@ func selftestMain(args []string) int {
 		}
 		// batch digests
 		batch := map[int]string{}
-		runWorker([]string{"-prop", id, "-tier", *tier, "-seed", fmt.Sprint(*seed), "-from", "0", "-to", fmt.Sprint(*n)}, false, 240*time.Second, func(o runOutcome) {
-			if o.res != nil {
-				batch[o.idx] = o.res.Digest
-			} else {
-				batch[o.idx] = "CRASH"
-			}
-		})
+		for i := 0; i < *n; i++ {
+			runWorker([]string{"-prop", id, "-tier", *tier, "-seed", fmt.Sprint(*seed), "-from", fmt.Sprint(i), "-to", fmt.Sprint(i + 1)}, false, 240*time.Second, func(o runOutcome) {
+				if o.res != nil {
+					batch[o.idx] = o.res.Digest
+				} else {
+					batch[o.idx] = "CRASH"
+				}
+			})
+		}
 		for _, conc := range []int{1, 4, 16} {
 			var wg sync.WaitGroup
 			var mu sync.Mutex
